@@ -2,7 +2,7 @@
 conditions matching the listed atoms (rules/guardreq.json)."""
 import re
 
-from core import Finding, RuleResult, view
+from core import Finding, RuleResult, atoms_match, view
 from prov import Prov, guards
 from rules_follow import _match_call
 
@@ -28,12 +28,12 @@ def make(rule_id):
             located += 1
             for c in sites:
                 atoms = g.atoms_at(("t", c.bb))
-                missing = [rx for rx in row["require"] if not any(re.search(rx, a) for a in atoms)]
+                missing = [rx for rx in row["require"] if not atoms_match(rx, atoms)]
                 key = "%s/%s/%s" % (rule_id, f.path, row["id"])
                 if missing:
                     res.fail(Finding(rule_id, key, "%s; conditions on the path to %s (line %d): %s" % (row["why"], c.name.split("::")[-1], c.line, "; ".join(a[:110] for a in atoms) or "none"), f, c.term["span"]))
                 else:
-                    res.ok({"row": row["id"], "function": f.path, "site": c.name.split("::")[-1], "guard": [a[:100] for a in atoms if any(re.search(rx, a) for rx in row["require"])][:2]}, nontrivial=True)
+                    res.ok({"row": row["id"], "function": f.path, "site": c.name.split("::")[-1], "guard": [a[:100] for a in atoms if any(atoms_match(rx, [a]) for rx in row["require"])][:2]}, nontrivial=True)
         res.floor("rows located", located, ctx.table("floors").get("guardreq_" + rule_id, 0))
         return res
     return run
